@@ -42,6 +42,14 @@ func main() {
 	case "dbg-facts":
 		// dbg-facts <pkg-suffix> <recv> <fn> <call>
 		dbgFacts(envOr("NPVERIF_REPO", "/repo"), core.ModPath+"/"+os.Args[2], os.Args[3], os.Args[4], os.Args[5])
+	case "whole":
+		wf, err := core.Whole(envOr("NPVERIF_REPO", "/repo"))
+		if err != nil {
+			fmt.Fprintln(os.Stderr, err)
+			os.Exit(2)
+		}
+		b, _ := json.MarshalIndent(wf, "", " ")
+		fmt.Println(string(b))
 	case "warm":
 		if _, err := core.Load(envOr("NPVERIF_REPO", "/repo"), nil); err != nil {
 			fmt.Fprintln(os.Stderr, "warm:", err)
@@ -297,11 +305,23 @@ func runThorough(id, repo, verif string) map[string]interface{} {
 	for _, r := range res {
 		counts[r.Outcome]++
 	}
-	return map[string]interface{}{
+	out := map[string]interface{}{}
+	if id == "C18" || id == "C12" {
+		if wf, err := core.Whole(repo); err == nil {
+			out["whole_program"] = wf
+		} else {
+			out["whole_program"] = map[string]string{"error": err.Error()}
+		}
+	}
+	if id == "C12" {
+		out["generic_tools"] = crossRef(repo)
+	}
+	out["sensitivity"] = map[string]interface{}{
 		"what":     "sensitivity: each variant is a small edit of the current sources applied in memory (go/packages overlay); the rules must report it. Survivors are gaps of the checker, not violations of the property; benign variants must stay silent.",
 		"variants": res,
 		"counts":   counts,
 	}
+	return out
 }
 
 func cmdVariants(args []string) int {
